@@ -231,3 +231,31 @@ def forwarding_sites(prog, body, target, arg_idx):
             args[arg_idx] = t["args"][src - 1]
             out.append((bi, {"k": "call", "args": args, "line": t["line"], "f": t["f"], "dest": t["dest"], "target": t.get("target"), "via": c}))
     return out
+
+
+def private_wrappers(prog, body, target):
+    """workspace functions (not closures) that call `target` and whose every caller lies in `body`'s family: private helpers
+    extracted from `body`"""
+    root = body.root or body.path
+    out = set()
+    callers = prog.callers()
+    for b2, bi in callers.get(target, []):
+        w = b2.root or b2.path
+        if w == root or w not in prog.bodies:
+            continue
+        cs = callers.get(w, [])
+        if cs and all((c.root or c.path) == root for c, _ in cs):
+            out.add(w)
+    return out
+
+
+def sites_via_helpers(prog, body, target):
+    """(block, terminator) in `body`: direct calls to `target`, and calls to a private helper of `body` that calls it"""
+    out = list(calls(body, target))
+    ws = private_wrappers(prog, body, target)
+    if ws:
+        for bi, t in body.calls():
+            c = body.callee(t) or body.callee_decl(t) or ""
+            if c in ws:
+                out.append((bi, t))
+    return out
